@@ -442,6 +442,14 @@ func (b *Backend) compareTyped(sigp string, s int, e *Ent, where string) {
 	if b.regMask()&MapInsts[i].Mask == MapInsts[i].Mask {
 		b.checkMapperGet(sigp, i, s, e, where)
 	}
+	// and every mapper of two or more components of which the entity lacks exactly one (HasAll must say no, Get must
+	// return nil for that one only)
+	for k := 2 * comps.N; k < len(MapInsts); k++ {
+		miss := MapInsts[k].Mask &^ e.Mask
+		if k != i && miss != 0 && miss&(miss-1) == 0 && b.regMask()&MapInsts[k].Mask == MapInsts[k].Mask {
+			b.checkMapperGet(sigp, k, s, e, where)
+		}
+	}
 }
 
 func (b *Backend) checkMapperGet(sigp string, i int, s int, e *Ent, where string) {
